@@ -19,6 +19,8 @@ def silent_log():
 
 
 POPS = ["CEU", "YRI", "AMR", "EAS"]
+# population labels are free text in the model file: longer than any fixed-width field, two of them sharing a long prefix
+LONG_POPS = ["European_1", "European_2", "NativeAmerican", "EastAsian"]
 
 
 def gen_model(rng, max_lines=4, npops=None, nsamples=None):
@@ -46,6 +48,8 @@ def gen_model(rng, max_lines=4, npops=None, nsamples=None):
         fr[max(range(k), key=lambda i: fr[i])] += round(1.0 - adm - sum(fr), 3)
         fr = [round(x, 3) for x in fr]
         lines.append((g, [adm] + fr))
+    if rng.random() < 0.3:
+        pops = LONG_POPS[:k]
     return n, pops, lines
 
 
